@@ -4,7 +4,7 @@ import rwgen
 TRUSTED_BASE = ['model of dorewrite and helpers in coq/Model/Rewrite.v; the regex engine is an oracle: the model is given the answers glibc regexec gave the implementation (logged by the harness)']
 ASSUMPTIONS = ['regexec answers are well-formed offsets into the subject']
 RULE = 'random rewrite blocks over all rule forms (remove/whitelist, vendor, modify with back-references, supplement, add) parsed by the real configuration parser, applied to attribute lists aimed at the rules; distinct = distinct implementation observation lines'
-def generate(rng, tier):
+def generate_core(rng, tier):
     cases = []
     n = 4000 if tier == 'thorough' else 150
     for i in range(n):
@@ -14,3 +14,8 @@ def generate(rng, tier):
             lines.append('op rewrite %s 1 %s' % (rw.name, rwgen.attrs_tokens(rwgen.random_attrs(rng, rw))))
         cases.append(('rw-%d' % i, lines))
     return cases
+
+def generate(rng, tier):
+    """the component-level cases, then the clause seen through the whole request/reply pipeline"""
+    import pipeline, focus
+    return generate_core(rng, tier) + pipeline.guided_cases(rng, 400 if tier == 'thorough' else 30, pipeline.exchange_history, 'xchg')
